@@ -180,9 +180,11 @@ def make_canary(records, fields):
     return None
 
 
-def validate_traces(module, cfg_name, records, chunk=1500, parallel=8, workers=2, timeout=1800,
+def validate_traces(module, cfg_name, records, chunk=1500, parallel=8, workers=2, timeout=None,
                     extra_env=None, steps_per_record=None, canary_fields=None):
     """(see below)  canary_fields: fields to corrupt for the binding self-test."""
+    if timeout is None:      # per TLC invocation (one chunk of records); generous in the thorough tier
+        timeout = 14400 if os.environ.get("VERIF_TIER_EFFECTIVE") == "thorough" else 1800
     canary = make_canary(records, canary_fields) if canary_fields else None
     if canary is not None:
         records = [canary] + list(records)
